@@ -14,16 +14,21 @@ from .build import E, T, P
 # ------------------------------------------------------------------ ID pools
 SIMPLE_S = [f'S{i}' for i in range(10)]
 ODD_S = ['STORY1', 'STORY10', 'story1', 'OPENMEDIA_NCS.W1.BBC.MOS;OM_4.15;OM_4.16,4.15.1',
-         'a&b', 'x<y', 'é中', '42', '007', 'S 1', ' S1', 'None', '0']
+         'a&b', 'x<y', 'é中', '42', '007', 'S 1', ' S1', 'None', '0',
+         # quotes, format-string characters, IDs that share the part before / after a comma
+         "PM'S SPEECH", 'say "hi"', 'VAT 20% RISE', 'clip%sfinal', '{0}', 'OM_4.15,4.1', 'OM_4.15,4.2',
+         'OM_9.1,4.1', '1', '12', 'S1 ', 'a\\b']
 STORY_POOL = SIMPLE_S + ODD_S
 NEW_S = [f'N{i}' for i in range(8)] + ['STORY100', 'n&w', 'NEW;1,2', 'ü1']
-UNKNOWN_S = ['ZZ-unknown', 'S', 'S00', 'story', 'STORY', 'é', '-1']
+UNKNOWN_S = ['ZZ-unknown', 'S', 'S00', 'story', 'STORY', 'é', '-1', "O'NEILL", '100%', '%s %d', '{x}',
+             'OM_4.15,9.9', 'OM_0.0,4.1']
 
 SIMPLE_I = [f'I{i}' for i in range(10)]
-ODD_I = ['ITEM1', 'ITEM10', 'item1', '1', 'i&1', 'OM_4.15.1;7', 'ï2']
+ODD_I = ['ITEM1', 'ITEM10', 'item1', '1', 'i&1', 'OM_4.15.1;7', 'ï2', "O'BRIEN-VT", '2', '12', '10', '50%',
+         'clip%d', 'OBJ,1.1', 'OBJ,1.2', 'ALT,1.1', 'S0', 'S1']
 ITEM_POOL = SIMPLE_I + ODD_I
 NEW_I = [f'J{i}' for i in range(8)] + ['ITEM100', 'j<1']
-UNKNOWN_I = ['ZZ-unknown-item', 'I', 'I00', 'item', '-1']
+UNKNOWN_I = ['ZZ-unknown-item', 'I', 'I00', 'item', '-1', "it'em", '7%', '%(id)s', 'OBJ,9.9', 'NONE,1.1']
 
 # XML 1.0 legal text without CR (parsers normalise it) - see DESIGN.md section 5
 _ALPHA = st.characters(
@@ -95,7 +100,9 @@ def generic(depth=2, tags=None):
 PARAS = [None, '', ' ', 'Plain text', '  padded  ', '(note)', '<cue>', '(half', 'half)',
          '<half', ' (padded note) ', '()', '<>', '(', 'é中 text', 'a (b) c', '\n', 'x\ny',
          ')(', '><', '(a)(b)', '<a> b <c>', ' ( spaced ) ', 'ends with )', '( starts',
-         '(mixed>', '<mixed)', '(Beat) 3 - 1 <FT>', '<GFX> see chart (left)', ' (pad> ', '<)', '(>']
+         '(mixed>', '<mixed)', '(Beat) 3 - 1 <FT>', '<GFX> see chart (left)', ' (pad> ', '<)', '(>',
+         '(multi\nline)', '<multi\nline>', '(a\n\nb)\n', '\u00a0(nbsp note)', 'e\u0301 decomposed', '\u212b \u2126',
+         'line\u2028sep', '(x) ' * 30]
 PARA_RUNS = [[]] * 6 + [[p] for p in PARAS] + [[_R.choice(PARAS), _R.choice(PARAS)] for _ in range(20)]
 
 
@@ -110,7 +117,7 @@ def para_run():
 DURS = ['0', '1', '2', '3', '5', '10', '0.25', '0.5', '1.75', '12.5', '100', '59.04']
 DUR = st.sampled_from(DURS)
 TIME_TEXTS = ['2020-01-01T12:30:00', '2021-06-30T23:59:59', '1999-12-31T00:00:01',
-              '2020-02-29T06:00:00.250000']
+              '2020-02-29T06:00:00.250000', '2020-01-01T12:31', '2021-06-30T23:59']
 TIMES = st.sampled_from(TIME_TEXTS)
 
 
@@ -168,7 +175,11 @@ def _item_variants():
     return out
 
 
-ITEM_VARIANTS = _item_variants()
+ITEM_VARIANTS = _item_variants() + [
+    dict(slug='', obj_id='', mos_id='', obj_type=''),                      # present but empty tags
+    dict(slug='slug', obj_id='', note=('note-no-text', '')),
+    dict(slug=None, obj_type='', mos_id='mos.id', note=('note-no-text', '')),
+]
 
 
 def _mk_item(iid, v, tag='item'):
@@ -258,7 +269,7 @@ def pick(pool, n):
 
 # schema values that are prefixes / case variants of each other
 SCHEMAS = ['http://schema/1', 'http://schema/10', 'http://schema/1/sub', 'HTTP://SCHEMA/1', 'http://schema/2',
-           'http://schema/']
+           'http://schema/', 'http://schema/1/', ' http://schema/1']
 
 
 @st.composite
@@ -379,6 +390,20 @@ def message(draw, state, ro_id, kinds=B.ALL_KINDS, faults='some', rich=True, mid
     new_s += [g for g in (f'G{n}' for n in range(len(sids) + 6)) if g not in sids][:6]
     new_i += [g for g in (f'H{n}' for n in range(len(used_i) + 6)) if g not in used_i][:6]
 
+    def near(ids, used):
+        # new IDs that are *close* to existing ones (same part before / after a comma, other
+        # case, surrounding blank, extended): they must still be treated as different IDs
+        out = []
+        for x in [i for i in ids if i][:3]:
+            cand = [x + ',1', x + ' ', ' ' + x, x + "'", x.swapcase()]
+            if ',' in x:
+                cand += [x.rsplit(',', 1)[0] + ',9.9', 'ZZ,' + x.rsplit(',', 1)[1], x.split(',', 1)[0]]
+            out += [c for c in cand if c not in used and c not in out and c.strip()]
+        return out
+    if rich:
+        new_s += near(sids, set(sids))[:4]
+        new_i += near(sorted(used_i, key=str), used_i)[:4]
+
     def sref():
         return draw(one_ref(sids, UNKNOWN_S, faults))
 
@@ -397,9 +422,13 @@ def message(draw, state, ro_id, kinds=B.ALL_KINDS, faults='some', rich=True, mid
         return [draw(story(i, draw(distinct(ITEM_POOL if rich else SIMPLE_I, 0, 3)), rich=rich,
                            timing_mode=timing_mode))[0] for i in ids]
 
-    def new_items(maxn=3):
+    def new_items(maxn=3, here=()):
         n = draw(st.integers(1, maxn))
-        ids = list(draw(pick(new_i, n)))
+        # item IDs are unique per story only: a carried item may well have an ID that an
+        # item of ANOTHER story already uses
+        elsewhere = [i for i in sorted(used_i, key=str) if i not in here and i is not None]
+        pool = new_i + elsewhere[:3]
+        ids = list(draw(pick(pool, n)))
         return [draw(item(i, rich=rich)) for i in ids]
 
     if kind == 'roStoryAppend':
@@ -450,11 +479,11 @@ def message(draw, state, ro_id, kinds=B.ALL_KINDS, faults='some', rich=True, mid
         s, its = story_and_items()
         ref = draw(st.sampled_from(['', ''] + its)) if its and faults == 'none' else \
             draw(one_ref(its, UNKNOWN_I, faults)) if draw(st.integers(0, 2)) else ''
-        body = B.item_insert(ro_id, s, ref, new_items())
+        body = B.item_insert(ro_id, s, ref, new_items(here=its))
     elif kind == 'roItemReplace':
         s, its = story_and_items()
         r = draw(one_ref(its, UNKNOWN_I, faults))
-        ni = new_items()
+        ni = new_items(here=its)
         if isinstance(r, str) and r and draw(st.booleans()):
             ni[draw(st.integers(0, len(ni) - 1))].find('itemID').text = r      # new version, same ID
         body = B.item_replace(ro_id, s, r, ni)
@@ -496,7 +525,7 @@ def message(draw, state, ro_id, kinds=B.ALL_KINDS, faults='some', rich=True, mid
     elif kind == 'EAItemReplace':
         s, its = story_and_items()
         r = draw(one_ref(its, UNKNOWN_I, faults))
-        ni = new_items()
+        ni = new_items(here=its)
         if isinstance(r, str) and r and draw(st.booleans()):
             ni[draw(st.integers(0, len(ni) - 1))].find('itemID').text = r      # new version, same ID
         body = B.ea_item_replace(ro_id, s, r if r is not None else '', ni)
@@ -518,7 +547,7 @@ def message(draw, state, ro_id, kinds=B.ALL_KINDS, faults='some', rich=True, mid
     elif kind == 'EAItemInsert':
         s, its = story_and_items()
         r = draw(one_ref(its, UNKNOWN_I, faults)) if draw(st.integers(0, 2)) else ''
-        body = B.ea_item_insert(ro_id, s, r if r is not None else '', new_items())
+        body = B.ea_item_insert(ro_id, s, r if r is not None else '', new_items(here=its))
     elif kind == 'EAStorySwap':
         ids = draw(id_list(sids, UNKNOWN_S, faults, min_size=2, max_size=2))[:2]
         if degenerate and sids and draw(st.integers(0, 2)) == 0:
